@@ -260,6 +260,7 @@ func (m *BasicMutableWorld) AddFeature(f Feature) error {
 		(*m.features)[f.FeatureID()] = f
 		for _, reference := range references {
 			if err := ValidateFeature(NewFeatureFromWorld(reference), &ValidateOptions{InvertClockwisePaths: false}, m); err != nil {
+				(*m.features)[f.FeatureID()] = existing
 				return err
 			}
 		}
@@ -868,6 +869,7 @@ func (m *MutableOverlayWorld) AddFeature(f Feature) error {
 
 		for _, reference := range references {
 			if err := ValidateFeature(NewFeatureFromWorld(reference), &ValidateOptions{InvertClockwisePaths: false}, m); err != nil {
+				(*m.features)[f.FeatureID()] = existing
 				return err
 			}
 		}
